@@ -16,7 +16,11 @@ EXPLANATION = (
     "release operations must notify on every path; the wait must sit in a "
     "re-check loop. Decides the structural necessary conditions of 'a wake-up "
     "can never be lost', for every schedule; does not decide the ring arithmetic "
-    "(that readers reach the drained state in a bounded number of calls).")
+    "(that readers reach the drained state in a bounded number of calls). "
+    "R-PLATFORM: lock_acquire / lock_release / condition_variable_wait / "
+    "condition_variable_notify_all reach, on every path, the pthread primitive "
+    "they stand for on the object embedded in their own parameter (wait on the "
+    "caller's mutex, broadcast rather than signal).")
 
 
 def run(ctx, res):
@@ -24,7 +28,7 @@ def run(ctx, res):
     la = LockAnalysis(prog)
     res.extra["explanation"] = EXPLANATION
     res.assumptions += [
-        "pthread_cond_wait atomically releases the mutex and re-acquires it (platform primitive trusted)",
+        "pthread_cond_wait atomically releases the mutex and re-acquires it (the pthread primitive is trusted; the repository's wrappers around it are checked by R-PLATFORM)",
         "a lock/field is identified by (owning record, field path); two objects of one type in one function are not distinguished",
         "constructor/destructor functions (lock_init / free of an owned buffer) run with no concurrent user",
         "OS scheduling fairness is not modelled",
@@ -56,6 +60,10 @@ def run(ctx, res):
             n = LR.rule_l_notify(la, res, f, cv, site["reads"])
             if n == 0:
                 raise AnalysisBroken("release operation %s no longer stores to any field of the writer's predicate" % name)
+    # the wrappers the rules above treat as primitives (linux/platform.c)
+    from .. import platformrules as PR
+    PR.run_all(prog, la, res, thread=False, event=False)
+    res.require_min("R-PLATFORM", 4)
     res.require_min("L-CV", 12)
     res.require_min("L-NOTIFY", 3)
     res.require_min("L-RECHECK", 1)
